@@ -1,7 +1,8 @@
 (* Properties/C03.v — statements only.  "Finality is safe; on a single node finalized only moves forward along its own
    ancestry; with all validators honest and timely delivery finality keeps advancing."  Model: Bft/Model.v. *)
 From Coq Require Import List NArith Bool Lia.
-From Verif Require Import Common.Util Bft.Tree Bft.Model Bft.Quorum Bft.ProofsTally.
+From Verif Require Import Common.Util Bft.Tree Bft.Model Bft.Quorum Bft.ProofsTally Bft.ProofsChain Bft.ProofsNode
+  Bft.Safety Bft.ProofsWitness.
 Import ListNotations.
 Open Scope N_scope.
 
@@ -40,7 +41,55 @@ Example quorum_example : (* n = 4: threshold 2, two sets of three share two memb
   NoDup [1;2;3] /\ 4 * 2 / 3 < N.of_nat (length [1;2;3]) /\ inter [1;2;3] [2;3;4] = [2;3].
 Proof. split; [repeat constructor; cbn; intuition discriminate | split; vm_compute; reflexivity]. Qed.
 
+(* 2. protocol facts used by every safety argument: a committed epoch is justified; quality never decreases along a
+      chain and grows by at most one per block; justification is monotone in the set of votes *)
+Theorem committed_implies_justified c pq seg :
+  s_comm (summarize (tally c pq seg)) = true -> s_just (summarize (tally c pq seg)) = true.
+Proof. exact (committed_implies_justified_lemma c pq seg). Qed.
+
+Theorem quality_monotone c b t : 0 < c_L c -> grounded (b :: t) ->
+  quality_pure c t <= quality_pure c (b :: t) <= quality_pure c t + 1.
+Proof. intros HL. exact (quality_step c HL b t). Qed.
+
+Theorem justified_monotone c pq seg1 seg2 :
+  incl (map (vote_of c) seg1) (map (vote_of c) seg2) ->
+  s_just (summarize (tally c pq seg1)) = true -> s_just (summarize (tally c pq seg2)) = true.
+Proof. exact (justified_monotone_lemma c pq seg1 seg2). Qed.
+
+(* 3. single node: along any import history the node's records equal the definitions and its fork choice is the
+      maximum of the total order (so what it votes on is a function of what it stores) *)
+Theorem import_history_invariants c guard g master bs : 0 < c_L c -> b_num g = 0 ->
+  (forall nd b, inv c nd -> In b bs -> valid_child (n_repo nd) b) ->
+  inv c (import_all c guard (init_node g master) bs).
+Proof. intros HL Hg Hv. apply import_all_inv; [exact HL | apply init_inv; exact Hg | exact Hv]. Qed.
+
+(* 4. general safety.  The statement over all valid runs (every honest block proposed by its signer on its own best
+      block with the engine's COM bit, score increments within 1..n being *data* of the run, fewer than a third
+      Byzantine) is REFUTED in the model: the `quality >= headQuality-1` window of ShouldVote forgets an own
+      conflicting vote once the head quality has moved two ahead (DESIGN §5-F4; n = 4, one Byzantine).  The witness
+      needs two honest validators to move, at equal quality, to a head that does not extend their last vote
+      (f4_needs_tie_switch); whether real block production (scheduler scores) permits that is not settled, so the
+      safety statement under the explicit fork-choice premise stays a Prop (bft_safety_under_premise): _partial. *)
+Definition bft_safety_without_premise := bft_safety_statement true.
+Definition bft_safety_under_premise := bft_safety_under_premise_statement true.
+
+Theorem bft_safety_without_premise_refuted : ~ bft_safety_statement true.
+Proof. exact (bft_safety_refuted_lemma true). Qed.
+
+Theorem f4_needs_tie_switch : valid_run_b true cfg4 [4] f4_world [gen] f4_run = true /\ no_tie_switch_b true cfg4 f4_world f4_run = false.
+Proof. split; [exact (f4_valid true) | exact (f4_breaks_premise true)]. Qed.
+
+Example f4_end_state : In (b_id x4) (all_fins true cfg4 f4_world f4_run) /\ In (b_id y12) (all_fins true cfg4 f4_world f4_run) /\
+                       conflict (seen_after [gen] f4_run) (b_id x4) (b_id y12) = true.
+Proof. destruct (f4_fins true) as [A B]. split; [exact A | split; [exact B | exact f4_conflict]]. Qed.
+
 Print Assumptions quorum_intersection_count.
 Print Assumptions quorum_honest_count.
 Print Assumptions quorum_intersection_weight.
 Print Assumptions quorum_honest_weight.
+Print Assumptions committed_implies_justified.
+Print Assumptions quality_monotone.
+Print Assumptions justified_monotone.
+Print Assumptions import_history_invariants.
+Print Assumptions bft_safety_without_premise_refuted.
+Print Assumptions f4_needs_tie_switch.
